@@ -243,6 +243,14 @@ def write_replay(ctx, idx, body):
 def finish(ctx, checker_cmd, level='proof'):
     """verdict + evidence. Returns the exit code."""
     violations = []
+    # replay files of an earlier run with the same property / tier / seed would be mistaken for this run's
+    import glob
+    if not os.environ.get('VERIF_KEEP_REPLAYS'):
+        for old in glob.glob('%s/replays/%s-%s-%d-*.json' % (ROOT, ctx.pid, ctx.tier, ctx.seed)):
+            try:
+                os.remove(old)
+            except OSError:
+                pass
     if os.environ.get('VERIF_DEBUG'):
         json.dump({'failures': ctx.oracle_failures, 'disagreements': ctx.corr_disagreements, 'proof': ctx.proof_problems},
                   open(ROOT + '/build/debug-%s.json' % ctx.pid, 'w'), indent=1, default=str)
